@@ -214,6 +214,16 @@ WITNESS_GRANDCHILD = [
 ]
 
 
+WITNESS_AD_GROUP = [
+    {"parent": -1, "via": "prepare", "queries": [["h1", ["_"]]],
+     "stmts": [{"k": "fact", "a": ["f0", []]},
+               {"k": "ad", "hs": [["0.2", ["h0", ["a"]]], ["0.2", ["h1", ["a"]]]], "b": []}]},
+    {"parent": 0, "via": "api", "queries": [["h1", ["_"]], ["h0", ["b"]]],
+     "stmts": [{"k": "fact", "a": ["f1", ["a"]]}, {"k": "fact", "a": ["f1", ["b"]]},
+               {"k": "ad", "hs": [["0.1", ["h0", ["b"]]], ["0.3", ["h1", ["b"]]]], "b": []}]},
+]
+
+
 def chain(hist, i):
     c = []
     while i >= 0:
@@ -334,7 +344,9 @@ def lst(xs):
     return "(" + " ".join(str(x) for x in xs) + ")"
 
 
-def node_s(n, it):
+def node_s(n, it, goff=0):
+    """`goff`: added to the group id of a choice node (0 for the repaired numbering `len(self)`; the owner's offset
+    for the numbering `len(self.__nodes)` of the unrepaired code, which the model does not have)."""
     if n == ():
         return "E"
     t = type(n).__name__
@@ -355,11 +367,17 @@ def node_s(n, it):
     if t == "neg":
         return "(O 2 %s)" % lst([n.child])
     if t == "choice":
-        return "(O 3 ())"
+        return "(O 3 (%d))" % (n.group + goff)
     return "(? %s)" % t
 
 
-def impl_dump(db, it):
+def owner_offset(db, i):
+    while db is not None and i < db._ClauseDB__offset:
+        db = db._ClauseDB__parent
+    return db._ClauseDB__offset if db is not None else 0
+
+
+def impl_dump(db, it, gv0=False):
     nodes = db._ClauseDB__nodes
     off = db._ClauseDB__offset
     heads = sorted(db._ClauseDB__heads.items(), key=lambda kv: kv[1])
@@ -369,13 +387,14 @@ def impl_dump(db, it):
         f, a = sig.rsplit("/", 1)
         return it.sig(f, int(a))
     return "len=%d off=%d nodes=%s heads=%s redirect=%s" % (
-        len(db), off, lst(node_s(n, it) for n in nodes), lst("(%s %d)" % (hs(s), i) for s, i in heads),
+        len(db), off, lst(node_s(n, it, off if gv0 else 0) for n in nodes),
+        lst("(%s %d)" % (hs(s), i) for s, i in heads),
         lst("(%d %d)" % kv for kv in red))
 
 
-def impl_node(db, i, it):
+def impl_node(db, i, it, gv0=False):
     try:
-        return node_s(db.get_node(i), it)
+        return node_s(db.get_node(i), it, owner_offset(db, i) if gv0 else 0)
     except IndexError:
         return "err IndexError"
 
